@@ -1,7 +1,7 @@
 (** Coinswap proofs, part 1: decidable equalities, inversion tactics, bank frame
     lemmas, the arithmetic cores of the AMM and the characterisation of the
     price kernels. *)
-From Coq Require Import ZArith List Bool Lia Psatz.
+From Coq Require Import ZArith List Bool Lia.
 From Canto Require Import Lib.SdkInt Lib.SdkDec Lib.SdkDecProofs Model.Coinswap.
 Import ListNotations.
 Open Scope Z_scope.
